@@ -127,8 +127,10 @@ def quoted(rng):
             out.append(rng.choice(OBSQ))
         elif r < 0.9:
             out += b'\\' + bytes([rng.choice(b'"\\')])
-        else:
+        elif r < 0.96:
             out.append(rng.choice(b' @.'))
+        else:          # octets that no quoted string may contain (RFC 5321 qtextSMTP / quoted-pairSMTP): HT, LF, CR, 8 bit
+            out.append(rng.choice([9, 10, 13, 13, 13, 0x80, 0xe4, 0xff]))
     return bytes(out + b'"')
 
 
